@@ -572,8 +572,14 @@ func (g *genCtx) imports(ti *typeInfo) {
 	r := g.r
 	f := ti.File
 	need := map[string]string{} // simple -> full
+	ambiguous := map[string]string{} // simple name declared in >= 2 other packages -> the package whose wildcard import makes it legal
 	addType := func(text string) {
 		for _, tok := range splitIdents(text) {
+			if cands := g.byName[tok]; len(cands) >= 2 && resolvesTo(g, ti, tok) == nil {
+				if _, ok := ambiguous[tok]; !ok {
+					ambiguous[tok] = cands[r.Intn(len(cands))].Pkg
+				}
+			}
 			for _, cand := range g.byName[tok] {
 				if cand.Pkg != ti.Pkg && resolvesTo(g, ti, tok) == cand {
 					need[tok] = cand.Pkg + "." + cand.Simple
@@ -630,6 +636,22 @@ func (g *genCtx) imports(ti *typeInfo) {
 			continue
 		}
 		f.Imports = append(f.Imports, Import{Path: full})
+	}
+	// a simple name that two other packages declare and no single-type import settles: one of the packages is
+	// imported on demand (legal Java; which type the tool attributes is not asserted, see FinalizeSites)
+	var amb []string
+	for k := range ambiguous {
+		if _, settled := need[k]; !settled {
+			amb = append(amb, k)
+		}
+	}
+	sort.Strings(amb)
+	f.AmbiguousNames = amb
+	for _, k := range amb {
+		if pk := ambiguous[k]; !wild[pk] && pk != "" {
+			wild[pk] = true
+			f.Imports = append(f.Imports, Import{Path: pk + ".*", Wildcard: true})
+		}
 	}
 	// decoys
 	if r.Chance(1, 3) {
